@@ -20,7 +20,7 @@ from pathlib import Path
 
 from lib import S, B, observe_call
 
-GEN = ["NameCleanerParams", "RegistryParams", "RecfmParams", "EstructParams", "Cp037", "TextCodec"]
+GEN = ["NameCleanerParams", "HeaderRowParams", "RegistryParams", "RecfmParams", "EstructParams", "Cp037", "TextCodec"]
 RULE = ("streams: long = one table of 1650 (thorough: up to 4000) rows whose fixed-width / EBCDIC images exceed the 32 KiB read buffer, as CSV, fixed text and EBCDIC (RECFM N and F); shapes = every table shape 1..3 columns x 0..2 rows (exhaustive over shapes, distinct cell labels) in CSV, TAB, XLSX, "
         "ODS, NDJSON, fixed text, EBCDIC (RECFM N, F with and without lrecl); plain = workbooks of 1-3 sheets, tables 1-6 columns with "
         "distinct header names sampled from a pool (blanks, punctuation, quotes, commas, tabs, non-ASCII) x 0-8 rows of non-empty "
